@@ -291,11 +291,13 @@ def unit_types_sweep():
                 if thou and abs(d) >= 1000: text = text.replace("1234", "1" + thou + "234")
                 try: got = fld.validated(text); obs = True
                 except errors.FieldValueError: obs = False
+                except Exception as e: return {"expected": "%r %s" % (text, "accepted" if want else "FieldValueError"), "observed": repr(e)}
                 if obs != want or (obs and got != d): return {"expected": "%r %s" % (text, "accepted as %s" % d if want else "rejected"), "observed": "accepted %r" % (got,) if obs else "rejected"}
             other = "," if dec == "." else "."
             for bad in ["1" + dec + "2" + dec + "3", "abc", "1" + dec + "5x", "NaN", "Infinity", "--1"] + (["1" + dec + "5" + thou + "0"] if thou else ["1" + other + "5"] if name in ("delimited", "fixed") and other != thou else []):
                 try: fld.validated(bad); return {"expected": "%r rejected" % bad, "observed": "accepted"}
                 except errors.FieldValueError: pass
+                except Exception as e: return {"expected": "%r rejected with a FieldValueError" % bad, "observed": repr(e)}
             return None
         res.append(sweep("C02/bounded/Decimal fields", dec_cases(), dec_check, "bounded", "6 format / separator conventions x 3 rules x 11 numerals written with the format's separators + malformed numerals",
                          describe=lambda c: dict(zip(("format", "decimal_separator", "thousands_separator", "rule"), c)), function="fields.DecimalFieldFormat", unit="C02.types", props=["C02"]))
@@ -388,7 +390,13 @@ def unit_types_sweep():
             fld = fields.DateTimeFieldFormat("t", False, "", "YYYY-MM-DD", f)
             if fld.validated("2020-02-29 00:00:00").tm_mday != 29: return {"expected": "Excel date-only cell with ' 00:00:00' accepted", "observed": "wrong value"}
             try: fld.validated("2020-02-29 00:00:01"); return {"expected": "other time suffix rejected", "observed": "accepted"}
-            except errors.FieldValueError: return None
+            except errors.FieldValueError: pass
+            full = fields.DateTimeFieldFormat("t", False, "", "DD.MM.YYYY hh:mm:ss", f)
+            for text, hms in (("31.12.1999 00:00:00", (0, 0, 0)), ("31.12.1999 23:59:59", (23, 59, 59))):
+                try: got = full.validated(text)
+                except errors.FieldValueError as e: return {"expected": "Excel, rule with date and time: %r accepted" % text, "observed": "rejected: %s" % str(e)[:80]}
+                if (got.tm_hour, got.tm_min, got.tm_sec) != hms: return {"expected": hms, "observed": tuple(got)[3:6]}
+            return None
         res.append(sweep("C02/bounded/DateTime Excel suffix", [0], xl_check, "bounded", "date-only layout under format excel: ' 00:00:00' suffix ignored, other suffixes rejected", function="fields.DateTimeFieldFormat", unit="C02.types", props=["C02", "C17"]))
         return res
     return NativeUnit("C02.types", "bounded stand-ins / axiom audits per field type (Decimal separators, Choice/Constant/Text, Pattern, RegEx, DateTime)", ["C02"], run, kind="bounded")
